@@ -159,7 +159,9 @@ impl<A, C: Clock, F: Filter, R: Rng, S: PtpInstanceStateMutex> Port<'_, InBmca, 
         match recommended_state {
             RecommendedState::M1(defaultds) | RecommendedState::M2(defaultds) => {
                 // a slave-only PTP port should never end up in the master state
-                debug_assert!(!default_ds.slave_only);
+                debug_assert!(
+                    !default_ds.slave_only || !matches!(self.port_state, PortState::Master)
+                );
 
                 current_ds.steps_removed = 0;
 
